@@ -67,10 +67,10 @@ def scenarios(inputs, tier):
     scs = []
     sid = [0]
 
-    def add(src, mode, umask, backup, stale, args, expand=False, clean=False, kind="", transform=None):
+    def add(src, mode, umask, backup, stale, args, expand=False, clean=False, kind="", transform=None, jobs=1):
         sid[0] += 1
         scs.append({"id": sid[0] * 100000, "src": src, "mode": mode, "umask": umask, "backup": backup, "stale": stale, "args": args + (["--backup"] if backup else []),
-                    "expand": expand, "clean": clean, "kind": kind, "transform": transform})
+                    "expand": expand, "clean": clean, "kind": kind, "transform": transform, "jobs": jobs})
 
     s = inputs["small"]
     add(s, 0o664, 0o022, False, 0, ["--fix"], expand=True, kind="base")
@@ -81,6 +81,8 @@ def scenarios(inputs, tier):
     add(s, 0o666, 0o027, True, 0o600, ["--fix"], expand=(tier == "thorough"), kind="base+0666")
     add(inputs["big"], 0o664, 0o022, True, 0, ["--fix"], expand=(tier == "thorough"), kind="big")
     add(s, 0o664, 0o022, False, 0, ["--fix", "--fix_phase", "3"], expand=False, kind="fix_phase3")
+    # the write-back happens in a pool worker when several jobs are asked for
+    add(s, 0o664, 0o022, True, 0o600, ["--fix"], expand=(tier == "thorough"), kind="jobs2", jobs=2)
     # nothing to write: the target must see no mutating call at all
     add(s, 0o664, 0o022, False, 0, [], clean=True, kind="check-only")
     add(s, 0o664, 0o022, False, 0, ["-ap", "-of", "syntastic"], clean=True, kind="check-only")
